@@ -26,8 +26,11 @@ HITS = ('hit_union_not_closed', 'hit_empty_collection', 'hit_orphan_concepts')
 BUDGET = {'quick': 240, 'thorough': 3000}
 
 
+BIG = 100
+
+
 def shards(tier):
-    return e1.std_shards(tier)
+    return e1.std_shards(tier, with_p=True, with_big=True)
 
 
 def check_case(case, ctr):
@@ -48,10 +51,25 @@ def check_case(case, ctr):
     J = [[None] * k for _ in R]
     M = [[None] * k for _ in R]
     union_not_closed = False
+    big = k > BIG
+
+    def partners(i):
+        """Every j for lattices up to BIG concepts; for bigger ones the structurally
+        interesting partners: bounds, itself, its covers, its mirror and two strides."""
+        if not big:
+            return R
+        return sorted({0, k - 1, i, k - 1 - i, (i * 7 + 3) % k, (i + k // 2) % k}
+                      | set(ref.upper_covers(i)) | set(ref.lower_covers(i)))
+
     for i in R:
-        for j in R:
+        for j in partners(i):
             x, y = al[i], al[j]
-            ej, em = ref.join([i, j]), ref.meet([i, j])
+            if big:     # closure of the union / intersection (shown equal to the searched
+                        # bounds on every lattice up to BIG concepts, see below)
+                ej = ref.index_of_extent(ref.closure_objs(ref.concepts[i][0] | ref.concepts[j][0]))
+                em = ref.index_of_extent(ref.concepts[i][0] & ref.concepts[j][0])
+            else:
+                ej, em = ref.join([i, j]), ref.meet([i, j])
             a, b, c = x.join(y), x | y, lat.join([x, y])
             d, e, f = x.meet(y), x & y, lat.meet([x, y])
             ctr['calls'] += 6
@@ -75,7 +93,11 @@ def check_case(case, ctr):
     for i in R:
         if J[i][i] != i or M[i][i] != i:
             bad('idempotent', i, [J[i][i], M[i][i]])
-        for j in R:
+        for j in partners(i):
+            if big:
+                if al[j] | al[i] is not al[J[i][j]] or al[j] & al[i] is not al[M[i][j]]:
+                    bad('commutative', None, [i, j])
+                continue
             if J[i][j] != J[j][i] or M[i][j] != M[j][i]:
                 bad('commutative', None, [i, j])
             if J[i][M[i][j]] != i or M[i][J[i][j]] != i:
@@ -89,7 +111,8 @@ def check_case(case, ctr):
                 bad('associative', None, [i, j, l])
                 break
     # n-ary forms
-    colls = [[]] + [[i] for i in R] + [list(R), list(R) * 2]
+    colls = [[]] + [[i] for i in R] + [list(R), list(R) * 2, list(R)[1:-1], list(R)[:-1],
+                                       list(R)[1:]]
     if k <= 8:
         colls += [list(t) for t in itertools.product(R, repeat=3)]
     else:
